@@ -347,6 +347,9 @@ CreateObsClauses(T, prev, ev, post) ==
                          ObsCreate(T.inst, prev.core, T.filt, prev.obs, ev.t, Rng(ev.fts)), post.obs)
         ELSE {})
   \cup If(post.core # prev.core, {C("C11:construct-changed-state")})
+  \* a built-in observer constructed with its default arguments is subscribed (otherwise it silently never
+  \* hears of a dispatch, and whatever the property under check says about it cannot hold)
+  \cup If("subscribed" \in DOMAIN ev /\ ~ev.subscribed, {Tag(T.owner \o ":constructed-observer-not-subscribed", ev.t)})
   \cup (IF ev.out = "ok" THEN ObsStateClauses(T, post, post.obs) ELSE {})
 FreshRunClauses(T, prev, ev, post) ==
        If(ev.core # prev.core, {C("C12:core-differs-from-fresh-run")})
